@@ -191,6 +191,24 @@ def pat_bindings(p):
             yield b
 
 
+_LIT_NUM = re.compile(r"^([0-9][0-9_]*(?:\.[0-9_]*)?(?:[eE][+-]?[0-9_]+)?)_*(?:f32|f64|[iu](?:8|16|32|64|128|size))?$")
+
+
+def lit_number(v):
+    """The numeric text of a literal without its type suffix (`2`, `2.0`, `2f64`, `1_000usize`, `1e-6_f32`), else None.
+    (Stripping a *set* of suffix characters from the right eats digits: `0.3` -> `0.`, `2` -> ``.)"""
+    m = _LIT_NUM.match(str(v))
+    return m.group(1).replace("_", "") if m else None
+
+
+def lit_float(v):
+    t = lit_number(v)
+    try:
+        return float(t) if t is not None else None
+    except ValueError:
+        return None
+
+
 def strip(n):
     """Peel wrappers that do not change the value: Semi, single-expression blocks, refs, derefs."""
     while isinstance(n, dict):
